@@ -1,6 +1,7 @@
 pub mod sweep;
 pub mod c01;
 pub mod c02;
+pub mod c03;
 pub mod c05;
 pub mod c07;
 pub mod c08;
@@ -24,6 +25,7 @@ pub fn table() -> Vec<(&'static str, CheckFn, ReplayFn)> {
     vec![
         ("C01", c01::check, c01::replay),
         ("C02", c02::check, c02::replay),
+        ("C03", c03::check, c03::replay),
         ("C05", c05::check, c05::replay),
         ("C07", c07::check, c07::replay),
         ("C08", c08::check, c08::replay),
